@@ -947,9 +947,15 @@ func (s *chaosScenario) observe(m *msg, now time.Time) {
 	}
 	if !o.precommitted && o.havePC && m.kind == kPrecommit && !m.byz {
 		o.precommitted = true
-		sa, sb := s.sides(o.sideA)
-		b.vote(now, kPrecommit, m.h, m.r, o.precommit[0], sa, false)
-		b.vote(now, kPrecommit, m.h, m.r, o.precommit[1], sb, false)
+		if s.h.cfg.ByzDoublePrecommit {
+			// NOTE: on the unmodified engine one double precommit in a committing round makes every
+			// later honest proposal fail with BadPrevCommitProofDoubleSigned (the chain halts).
+			sa, sb := s.sides(o.sideA)
+			b.vote(now, kPrecommit, m.h, m.r, o.precommit[0], sa, false)
+			b.vote(now, kPrecommit, m.h, m.r, o.precommit[1], sb, false)
+		} else {
+			b.vote(now, kPrecommit, m.h, m.r, o.precommit[0], nil, false)
+		}
 	}
 	if m.kind == kPrecommit && b.isProposer(m.h, m.r+1) && !b.round(m.h, m.r+1).proposed && b.roundFailed(m.h, m.r) {
 		h, r := m.h, m.r+1
